@@ -269,7 +269,7 @@ def run(tier):
         res = list(ex.map(explore_cfg, jobs))
         sres = list(ex.map(simulate_cfg, sims))
     closed = True
-    conform.settle_audit(res)
+    conform.settle_audit(res + [{"audit": None, "fails": x["fails"]} for x in sres])
     for x in res:
         R.cov["traces_validated_against_impl"] += x["edges"]
         R.cov["evaluations"] += x["edges"]
